@@ -69,6 +69,26 @@ def run_case(ctx, kind_, idx):
         with warnings.catch_warnings(record=True) as wlog:
             warnings.simplefilter("always")
             wv = Weaver(x.copy(), y.copy())
+            if mode != "default_s" and rng.integers(0, 2):
+                # "a Weaver can be sampled anywhere consistently with get()": judge against the CURRENT series, after
+                # a random history, and after an earlier to_function() call followed by further processing
+                from . import _weaver_ops as W
+                hist = W.random_history(rng, wv, 0, 2, allow=["shift_x", "scale_x", "shift_y", "scale_y",
+                                                                "truncate_by_index", "append_one_sample"], max_len=200)
+                if len(wv.get()[0]) >= 5:
+                    if mode == "to_function":
+                        wv.to_function()(float(wv.get()[0][0]))
+                        hist.append("to_function()")
+                    hist += W.random_history(rng, wv, 1, 2, allow=["shift_y", "scale_y", "trend", "noise", "normalize_y"])
+                    info["history"] = hist
+                    x, y = (np.array(a, dtype=float).copy() for a in wv.get())
+                    meta["ycls"] = "after_history"
+                    mag = float(np.max(np.abs(y))) or 1.0
+                    gaps = np.diff(x)
+                    ratio = float(np.max(gaps) / np.min(gaps))
+                    irel = 1e-9 * max(1.0, ratio) + 100 * tol.cond_x(x)
+                else:
+                    wv = Weaver(x.copy(), y.copy())
             if mode == "to_function":
                 f = wv.to_function()
                 got = np.asarray(f(x), dtype=float)
